@@ -122,6 +122,7 @@ Proof.
   intros H pairs. induction pairs as [|[size pct] rest IH]; intros rc memLen off sum m; [reflexivity|].
   cbn [create_loop_gen]. cbv zeta. rewrite (create_fbl_gen_ext chk1 chk2 H).
   destruct (c_percentSumMax <? w32 (sum + pct)); [reflexivity|].
+  destruct (w32 (size + c_bufferHeaderSize) <? c_bufferHeaderSize); [reflexivity|].
   destruct (w32 (size + c_bufferHeaderSize) =? 0); [reflexivity|].
   destruct (create_fbl_gen chk2 _ size memLen off m) as [[c m1]|e|p]; try reflexivity.
   rewrite IH. reflexivity.
@@ -322,6 +323,7 @@ Proof.
   cbn [create_loop_gen]. cbv zeta.
   destruct (c_percentSumMax <? w32 (sum + pct)); [exact I|].
   rewrite (w32_small (size + c_bufferHeaderSize)) by (consts; lia).
+  destruct (size + c_bufferHeaderSize <? c_bufferHeaderSize) eqn:Ew; [exact I|].
   destruct (size + c_bufferHeaderSize =? 0) eqn:Ez; [consts; lia|].
   remember (w32 (w64 (rc * pct) / c_percentDivisor)) as X.
   assert (HX : 0 <= X < 4294967296) by (subst X; apply w32_range).
@@ -745,17 +747,12 @@ Definition wit_caseB : list (Z * Z) := [(944892668, 22); (3350074472, 4294967295
 Definition wit_mem : Z := 4294967295.
 Definition zero_mem : mem := fun _ => 0.
 
-Lemma wit_div0_panics : create_bm wit_div0 wit_mem zero_mem = Panic 4.
-Proof. vm_compute. reflexivity. Qed.
-
-Lemma buffers_refuted : ~ buffers_full.
-Proof.
-  intros H. specialize (H wit_div0 wit_mem zero_mem).
-  unfold buffers_result_ok in H. rewrite wit_div0_panics in H. apply H.
-  - unfold wit_mem; lia.
-  - unfold wit_div0. repeat constructor; cbn; lia.
-  - split; [discriminate|]. unfold wit_div0, wit_mem. repeat constructor; cbn; lia.
-Qed.
+(* regression (/repo db4e530): Size = 2^32 - 20 wraps the uint32 stride Size + 20 to 0 — the divisor of the
+   slot count before the repair (integer divide by zero, former known finding
+   C03:slice-size-plus-header-wraps); createBufferManager now answers with an error *)
+Lemma wit_div0_regression :
+  w32 (4294967276 + c_bufferHeaderSize) = 0 /\ create_bm wit_div0 wit_mem zero_mem = Err 6.
+Proof. split; vm_compute; reflexivity. Qed.
 
 (* three one-slot classes, every size below the mapping length and far from the uint32 limit; a
    percentage of 2^32-1 steps the running sum back from 22 to 21.  The third list header lands in the
@@ -794,7 +791,7 @@ Proof.
   - cbn in H. consts. lia.
 Qed.
 
-Lemma buffers_refuted_small_sizes : ~ buffers_full.
+Lemma buffers_refuted : ~ buffers_full.
 Proof.
   intros H. destruct wit_caseB_ok as (Hm & Hu & Hp & _).
   specialize (H wit_caseB wit_mem zero_mem Hm Hu Hp). unfold buffers_result_ok in H.
@@ -871,8 +868,9 @@ Qed.
 (* configurations the real code accepts.  VerifyConfig computes the percent sum in int and demands
    sum = 100: no percentage can wrap the uint32 running sum of createBufferManager, every budget is an
    honest share of the region, and the classes cannot outgrow the mapping — so the 36 bytes below
-   4 GiB need no guard.  What remains forced: size + 20 must not wrap (VerifyConfig only demands
-   size <= capacity) and the list headers alone must fit (VerifyConfig does not bound the number of pairs). *)
+   4 GiB need no guard.  A size whose stride size + 20 wraps in uint32 is rejected by createBufferManager
+   itself since /repo db4e530.  What remains forced: the list headers alone must fit (VerifyConfig does
+   not bound the number of pairs). *)
 Fixpoint sum_pct (pairs : list (Z * Z)) : Z :=
   match pairs with [] => 0 | p :: r => snd p + sum_pct r end.
 
@@ -882,7 +880,6 @@ Definition config_ok (memLen : Z) (pairs : list (Z * Z)) : Prop :=
   Forall (fun p => 0 <= fst p <= memLen /\ 0 <= snd p) pairs /\ (* VerifyConfig: Size <= ShareMemoryBufferCap *)
   sum_pct pairs = 100 /\                                       (* VerifyConfig: sum of Percent (in int) = 100 *)
   (* forced by the proof, NOT enforced by the code: *)
-  Forall (fun p => fst p + c_bufferHeaderSize < 4294967296) pairs /\
   c_bufferListHeaderSize * Z.of_nat (length pairs) + c_bufferManagerHeaderSize <= memLen.
 
 Lemma create_fbl_spec_fit num cpb memLen off m :
@@ -937,7 +934,7 @@ Proof. induction 1; cbn [sum_pct length]; lia. Qed.
 Lemma create_loop_spec_config pairs : forall rc memLen off sum m,
   0 <= rc < 4294967296 -> 0 <= memLen < 4294967296 -> 0 <= off -> 0 <= sum ->
   sum + sum_pct pairs <= 100 ->
-  Forall (fun p => 0 <= fst p /\ fst p + c_bufferHeaderSize < 4294967296 /\ 0 <= snd p) pairs ->
+  Forall (fun p => 0 <= fst p < 4294967296 /\ 0 <= snd p) pairs ->
   100 * (off + c_bufferListHeaderSize * Z.of_nat (length pairs)) + rc * sum_pct pairs <= 100 * memLen ->
   match create_loop pairs rc memLen off sum m with
   | Panic _ => False
@@ -954,14 +951,19 @@ Proof.
   unfold create_loop.
   induction pairs as [|[size pct] rest IH]; intros rc memLen off sum m Hrc Hmem Hoff Hsum Hle Hall Hbud.
   { cbn. repeat split; try lia. intros H; congruence. constructor. }
-  inversion Hall as [|p l Hsz Hrest]; subst p l. cbn [fst snd] in Hsz. destruct Hsz as (Hsz0 & Hsz32 & Hpct).
+  inversion Hall as [|p l Hsz Hrest]; subst p l. cbn [fst snd] in Hsz. destruct Hsz as ((Hsz0 & Hszu) & Hpct).
   cbn [sum_pct snd length] in Hle, Hbud.
   assert (Hsr : 0 <= sum_pct rest).
   { apply sum_pct_nonneg. eapply Forall_impl; [|exact Hrest]. cbn. intros a Ha; lia. }
   cbn [create_loop_gen]. cbv zeta.
   rewrite (w32_small (sum + pct)) by lia.
   destruct (c_percentSumMax <? sum + pct); [exact I|].
+  (* a stride that wraps in uint32 is rejected (db4e530) *)
+  destruct (Z_lt_ge_dec (size + c_bufferHeaderSize) 4294967296) as [Hsz32|Hwrap].
+  2:{ rewrite (w32_once (size + c_bufferHeaderSize)) by (consts; lia).
+      destruct (size + c_bufferHeaderSize - 4294967296 <? c_bufferHeaderSize) eqn:Ew; [exact I|consts; lia]. }
   rewrite (w32_small (size + c_bufferHeaderSize)) by (consts; lia).
+  destruct (size + c_bufferHeaderSize <? c_bufferHeaderSize) eqn:Ew; [exact I|].
   destruct (size + c_bufferHeaderSize =? 0) eqn:Ez; [consts; lia|].
   (* the budget of this class is an honest share: no uint64 / uint32 wrap *)
   assert (Hrp : 0 <= rc * pct) by (apply Z.mul_nonneg_nonneg; lia).
@@ -1031,7 +1033,7 @@ Lemma create_bm_spec_config pairs memLen m0 :
   | Ok (cs, m') => layout_ok pairs memLen cs /\ map_bm memLen m' = Ok cs
   end.
 Proof.
-  intros (Hmem & Hne & Hall & Hsum & Hs32 & Hhdr).
+  intros (Hmem & Hne & Hall & Hsum & Hhdr).
   unfold create_bm, create_bm_gen.
   destruct (memLen <=? 0) eqn:E0; [exact I|].
   remember (Z.of_nat (length pairs)) as n.
@@ -1039,9 +1041,9 @@ Proof.
   assert (Hrc : region_cap n memLen = memLen - c_bufferListHeaderSize * n - c_bufferManagerHeaderSize).
   { unfold region_cap, w64. apply Z.mod_small. consts; lia. }
   rewrite Hrc.
-  assert (Hall' : Forall (fun p => 0 <= fst p /\ fst p + c_bufferHeaderSize < 4294967296 /\ 0 <= snd p) pairs).
+  assert (Hall' : Forall (fun p => 0 <= fst p < 4294967296 /\ 0 <= snd p) pairs).
   { apply Forall_forall. intros p Hin.
-    rewrite Forall_forall in Hall, Hs32. specialize (Hall p Hin). specialize (Hs32 p Hin). lia. }
+    rewrite Forall_forall in Hall. specialize (Hall p Hin). lia. }
   pose proof (create_loop_spec_config pairs (memLen - c_bufferListHeaderSize * n - c_bufferManagerHeaderSize) memLen
                 c_bufferManagerHeaderSize 0 (upd m0 0 (w16 n))
                 ltac:(consts; lia) Hmem ltac:(consts; lia) ltac:(lia) ltac:(lia) Hall'
@@ -1081,8 +1083,9 @@ Proof.
   intros H Hc. pose proof (create_bm_spec_config pairs memLen m0 H) as Hs. rewrite Hc in Hs. exact (proj2 Hs).
 Qed.
 
-(* VerifyConfig rejects the small-sizes witness (its percentages sum to 4294967318 in int, not 100) and
-   accepts the division-by-zero witness: capacity 2^32-1 >= 1 MiB, one size <= capacity, percent 100 *)
+(* VerifyConfig rejects the refuting witness (its percentages sum to 4294967318 in int, not 100); it accepts
+   the former division-by-zero configuration (capacity 2^32-1 >= 1 MiB, one size <= capacity, percent 100),
+   which is config_ok and therefore covered by buffers_config: an error since db4e530 *)
 Lemma wit_caseB_rejected_by_VerifyConfig : sum_pct wit_caseB <> 100.
 Proof. vm_compute. discriminate. Qed.
 Lemma wit_div0_accepted_by_VerifyConfig :
@@ -1092,4 +1095,10 @@ Lemma wit_div0_accepted_by_VerifyConfig :
 Proof.
   unfold wit_mem, wit_div0. split; [lia|]. split; [discriminate|]. split; [repeat constructor; cbn; lia|].
   split; [reflexivity|]. cbn [length]. consts. lia.
+Qed.
+
+Lemma wit_div0_config_ok : config_ok wit_mem wit_div0.
+Proof.
+  destruct wit_div0_accepted_by_VerifyConfig as (H1 & H2 & H3 & H4 & H5).
+  unfold config_ok. repeat split; try assumption; lia.
 Qed.
